@@ -811,13 +811,23 @@ func ruleErrTotal(c *Ctx) []Obligation {
 	pos := c.Pos(less.Pos())
 	var splitN int64 = -1
 	unbounded := false
-	eachInstr(less, func(in ssa.Instruction) {
+	// the split may sit in a private helper that both operands go through; a list of pieces the helper writes out
+	// itself must not be longer than the bounded split
+	var literal int64 = -1
+	c.eachInstrDeep(less, func(in ssa.Instruction) {
+		if al, isA := in.(*ssa.Alloc); isA && in.Parent() != less {
+			if pt, isP := al.Type().(*types.Pointer); isP {
+				if at, isArr := pt.Elem().Underlying().(*types.Array); isArr && isStringType(at.Elem()) && at.Len() > literal {
+					literal = at.Len()
+				}
+			}
+		}
 		call, ok := in.(*ssa.Call)
 		if !ok {
 			return
 		}
 		if calleeIs(call, "strings", "SplitN") {
-			if k, okk := constInt(call.Call.Args[2]); okk {
+			if k, okk := constInt(resolveArg(call.Call.Args[2])); okk {
 				splitN = k
 			}
 		}
@@ -825,6 +835,9 @@ func ruleErrTotal(c *Ctx) []Obligation {
 			unbounded = true
 		}
 	})
+	if literal > splitN && splitN >= 0 {
+		return []Obligation{bad(R, con, pos, fmt.Sprintf("the splitter can hand back %d pieces but only %d are compared", literal, splitN))}
+	}
 	if unbounded {
 		return []Obligation{bad(R, con, pos, "the message is split into an unbounded number of fields but only a fixed number is compared: errors that agree on the compared prefix keep their input (map) order")}
 	}
@@ -1119,4 +1132,9 @@ func (c *Ctx) constantStoresOnly(mr mapRange) bool {
 		}
 	}
 	return okAll && stores > 0
+}
+
+func isStringType(t types.Type) bool {
+	b, ok := t.Underlying().(*types.Basic)
+	return ok && b.Info()&types.IsString != 0
 }
